@@ -1,0 +1,28 @@
+//go:build verif
+
+// Contracts for deductive verification (comment-only; compiled only with -tags verif).
+package ext
+
+// ---- C14: the streamed request body ----
+// Representation invariant of a fixed-length body stream: offset counts body bytes handed to the reader
+// of the stream, the first len(prefetched) of them come from the prefetched buffer, the rest from the wire.
+//@ macro bsFixed(rs) = rs.contentLength >= 0 && rs.prefetchedBytes != nil && rs.reader != nil && 0 <= rs.offset && rs.offset <= rs.contentLength && len(rs.prefetchedBytes.s) <= rs.contentLength && 0 <= rs.prefetchedBytes.i && rs.prefetchedBytes.i == ite(rs.offset <= len(rs.prefetchedBytes.s), rs.offset, len(rs.prefetchedBytes.s))
+
+// Read (fixed length): never takes more bytes from the wire than the body still has.
+//@ func bodyStream.Read(rs, p) n, err
+//@   props C14
+//@   nosafety
+//@   replay-import strings
+//@   replay-import github.com/bytedance/gopkg/lang/bytebufferpool
+//@   replay-import github.com/cloudwego/hertz/pkg/common/test/mock
+//@   replay-go body := strings.Repeat("a", 10000); conn := mock.NewConn(body + strings.Repeat("N", 300)); rs := AcquireBodyStream(&bytebufferpool.ByteBuffer{}, conn, nil, 10000); total := 0; buf := make([]byte, 4096); for { n, err := rs.Read(buf); total += n; if err != nil { break } }; if total > 10000 { fmt.Println("VCGO-VIOLATED a 10000-byte streamed body delivered", total, "bytes (the excess belongs to the next request)") }
+//@   requires rs.contentLength >= 0 ==> bsFixed(rs)
+//@   requires rs.reader != nil
+//@   modifies *, rs.reader.pos, rs.reader.avail, rs.reader.failed
+//@   top-ensures old(rs.contentLength) >= 0 ==> rs.reader.pos >= old(rs.reader.pos) && rs.reader.pos - old(rs.reader.pos) <= old(rs.contentLength - rs.offset)
+//@   ensures old(rs.contentLength) >= 0 ==> 0 <= n && n <= len(p)
+
+// Used at call sites only (not yet verified against its body): reading the trailer section touches the
+// reader and the trailer object.
+//@ func ReadTrailer(t, r) err
+//@   modifies *, r.pos, r.avail, r.failed
